@@ -2,8 +2,9 @@ from props import S
 
 CFG = {
     "properties_file": "Properties/C30.v",
-    "corr_files": ["Corr/C30.v", "Corr/C30rot.v"],
-    "streams": [S("C30", "drive_config", 150, 4000), S("C30rot", "drive_config", 150, 4000)],
+    "corr_files": ["Corr/C30.v", "Corr/C30rot.v", "Corr/C30paths.v"],
+    "streams": [S("C30", "drive_config", 150, 4000), S("C30rot", "drive_config", 150, 4000),
+                S("C30paths", "drive_config", 70, 2000)],
     "rule": "stream C30: one TLSConfig per case (Min in {unset, SSL3, 1.0..1.3, 0x0305}, Max in {unset, 1.0..1.3, 0x0305}, 55% from the "
             "valid shapes; ClientAuth 0..4; CA file none/good/missing/garbage; cert/key file empty/good/missing/garbage in 25%; cipher "
             "suites nil / default list / one ECDSA TLS1.2 suite / RSA-only), server started by absnfs.New + Export, 6-10 real handshakes "
@@ -11,7 +12,12 @@ CFG = {
             "RPC; non-trivial = TLS listener with at least one completed and one refused handshake. Stream C30rot: histories of 0-8 steps "
             "(GetExportOptions().TLS, Clone, ReloadCertificates, certificate file writes, UpdateExportOptions with derived / caller-made / "
             "nil TLS; 70% derived-only) with a handshake after every step, then the documented rotation step; non-trivial = non-empty "
-            "history whose rotation reached the listener. PKI generated at run time",
+            "history whose rotation reached the listener. Stream C30paths: one set of cert/key/CA file PATHS per case, reused by "
+            "successive servers and by two servers alive together while the files are overwritten (CA replaced among 3 CAs 35% of steps, "
+            "server leaf replaced 15% - or 10%/40% in the server-cert-rotation kind -, restart 25%, stop 10%, documented reload else; "
+            "ClientAuth 4/3 weighted, 0-2 too); every probe = clients with no certificate, self-signed and signed by each of the 3 CAs, "
+            "at TLS 1.2 and at 1.3, plus the presented leaf; non-trivial = a start on already used paths with completed and refused "
+            "handshakes. PKI generated at run time",
     "assumptions": [
         "go_min_default >= TLS 1.2: crypto/tls serves no version below 1.2 when Config.MinVersion is 0 (Go >= 1.22 without "
         "GODEBUG=tls10server=1); Section variable of Properties/C30.v, confronted with the toolchain by stream C30",
@@ -25,7 +31,9 @@ CFG = {
                   "C30_verify_if_given (RequireAndVerify: only CA-signed clients; VerifyIfGiven: none or CA-signed), C30_rotation (after "
                   "any history of GetExportOptions / Clone / ReloadCertificates / file writes / UpdateExportOptions with derived settings, "
                   "ReloadCertificates on GetExportOptions().TLS puts the new certificate into the cell the listener reads). Real "
-                  "handshakes against real listeners are compared with the model and with the property's statement on every run.",
+                  "handshakes against real listeners are compared with the model and with the property's statement on every run, "
+                  "including histories that reuse the same file paths with changed contents across listeners (a listener enforces the "
+                  "CA and presents the certificate that were in the files when it was built / reloaded).",
     "level_note": "Trusted: Coq kernel; Model/Tls.v incl. the modelled crypto/tls rule; astfacts x_config.go (order and constants of "
                   "Validate's checks, BuildConfig validating first and passing Min/Max/ClientAuth through, GetCertificate reading the shared "
                   "cell, Clone sharing it, ReloadCertificates storing into it, Listen taking the settings from the policy); the Go driver "
